@@ -507,3 +507,58 @@ def r_registration_first(cx):
                        "registrations: a file-based definition then shadows a registered one" % name,
                   cx.where(t["span"]))
     cx.count("R-REGISTRATION-FIRST", "file_reads", n)
+
+
+# ---------------------------------------------------------------------------------------------------------------------
+# R-CACHE-KEY (C18): the shared grid cache is keyed by the name the file is searched under
+
+CONV = ("to_string", "to_owned", "clone", "into", "from", "as_ref", "deref", "borrow", "as_str", "as_os_str")
+
+
+def _strip_conv(t):
+    for _ in range(8):
+        t = mir.strip_refs(t)
+        if t[0] == "call" and isinstance(t[1], str) and t[1].rsplit("::", 1)[-1] in CONV and t[2]:
+            t = t[2][0]
+            continue
+        if t[0] == "proj" and t[2] == "deref":
+            t = t[1]
+            continue
+        if t[0] == "cast":
+            t = t[2]
+            continue
+        break
+    return t
+
+
+@rule("R-CACHE-KEY", ["C18"])
+def r_cache_key(cx):
+    """GridCollection::get_grid looks a grid up in the process-wide cache, and on a miss reads the file and stores it.
+    The key of every cache access and the file name searched for are the same value - the name as given: otherwise
+    what a definition resolves to depends on what other contexts or threads happened to load before."""
+    name = "context::plain::GridCollection::get_grid"
+    f = cx.f.fn(name)
+    keys = []
+    for bb, t in f.calls():
+        c = f.callee(t) or ""
+        a = f.arg_terms(bb)
+        if c.endswith("BTreeMap::<K, V, A>::get") or c.endswith("BTreeMap::<K, V, A>::insert") or \
+                c.endswith("BTreeMap::<K, V, A>::contains_key"):
+            keys.append(("cache " + c.rsplit("::", 1)[-1], bb, _strip_conv(a[1])))
+        elif c.endswith("PathBuf::push") and len(a) > 1:
+            v = _strip_conv(a[1])
+            keys.append(("file name", bb, v))
+    want = ("arg", 2)
+    n = 0
+    file_terms = [v for k, _, v in keys if k == "file name"]
+    for kind, bb, v in keys:
+        if kind == "file name":
+            continue
+        n += 1
+        ok = v == want and want in file_terms
+        cx.ob("R-CACHE-KEY", "get_grid/%s%d" % (kind.split()[1], n), ok,
+              "the %s uses the grid name as given, the same value the file is searched under" % kind if ok else
+              "GridCollection::get_grid: the %s is keyed by %s while the file is searched under the name as given: "
+              "cache hits and file look-ups disagree (e.g. on letter case)" % (kind, mir.show(v)[:50]),
+              cx.where(f.term(bb)["span"]))
+    cx.count("R-CACHE-KEY", "cache_accesses", n)
